@@ -5,14 +5,20 @@
 (* with getline, file operands, system(), close(), fflush(), the three deny *)
 (* flags of the sandbox and the configurable open-file function.            *)
 (*                                                                         *)
-(* One run is a value `st` (a record); every I/O form of the language is a  *)
-(* pure transformer Apply(st, act) on it.  MC_IOStreams (invariants),       *)
+(* One run (one Execute call) is a value `st` (a record); every I/O form   *)
+(* of the language is a pure transformer Apply(st, act) on it.  A reusable  *)
+(* Interpreter is a SESSION: a sequence of runs, each started by            *)
+(* NextRun(previous run, cfg): streams, process table and logs are fresh    *)
+(* (the previous run closed everything at its end), the file system is what *)
+(* the previous run left, and the deny flags and the open-file function are *)
+(* those of the Config handed to THAT Execute, never an earlier one.  MC_IOStreams (invariants),       *)
 (* Gen_IOStreams (export of behaviours with predictions) and                *)
 (* Trace_IOStreams (validation of recorded executions) use exactly these    *)
 (* operators.                                                               *)
 (*                                                                         *)
 (* act.op         arguments              AWK rendering                      *)
-(* "print"        dest="stdout", form    print x / printf "%s", x           *)
+(* "print"        dest="stdout", form    print x / printf "%s", x /         *)
+(*                                       print x, x   (form "print2")       *)
 (* "print"        dest="file", name, mode("trunc"|"append"), form           *)
 (*                                       print x > name / print x >> name   *)
 (* "print"        dest="cmd", name, form print x | name                     *)
@@ -28,16 +34,39 @@
 (* in the program), which the semantics ignores -- that it is ignored is    *)
 (* part of the property.  The payload of the k-th action is the byte 96+k   *)
 (* (a letter), followed by a newline for print, so that loss, duplication   *)
-(* and reordering are all visible in the destinations.                      *)
+(* and reordering are all visible in the destinations.  Form "print2" is    *)
+(* print with two arguments: letter, output field separator, letter,        *)
+(* newline; the separator is that of the output mode (cfg.omode: "default"  *)
+(* -> space, "csv" -> comma, "tsv" -> tab).                                 *)
+(*                                                                         *)
+(* Commands.  cat, cat3 read their standard input and echo it to the shared *)
+(* standard output (all three forms).  exit3 = `exec 0<&-; exit 3` closes   *)
+(* its standard input at once (output form only): what is written to it is  *)
+(* discarded, close() still waits for it and reports its status 3.  showf1  *)
+(* = `cat f1 2>/dev/null` (system() only) copies file f1, as it is on disk  *)
+(* when the child runs, to the shared standard output.                      *)
+(*                                                                         *)
+(* The standard output writer (cfg.wkind): "plain" has no Flush method      *)
+(* (every write goes straight to the underlying writer); the others are     *)
+(* buffered writers with a Flush method ("bufio3", "bufio16", "bufio4096":  *)
+(* the harness uses a *bufio.Writer of that size; the model only says that  *)
+(* bytes may stay in the buffer until a flush point).                       *)
 (***************************************************************************)
 EXTENDS Strings, TLC
 
 Files    == {"f1", "f2", "f3"}
-Cmds     == {"cat", "cat3"}            \* cat: `cat`;  cat3: `sh -c 'cat; exit 3'`
+Cmds     == {"cat", "cat3"}            \* cat: `cat`;  cat3: `sh -c 'cat; exit 3'`  (read stdin, echo it)
+NoReadCmds == {"exit3"}                \* `sh -c 'exec 0<&-; exit 3'`: never reads what it is sent
+FileCmds == {"showf1"}                 \* `cat f1 2>/dev/null`: shows a file the program may be writing (system() only)
+OutCmds  == Cmds \cup NoReadCmds       \* usable with print | c
+SysCmds  == Cmds \cup FileCmds         \* usable with system(c)
 StdNames == {"-", "/dev/stdout", "/dev/stderr"}
-SNames   == Files \cup Cmds            \* names that can denote a stream of their own
-NameSeq  == <<"f1", "f2", "f3", "cat", "cat3">>
-Status(c) == IF c = "cat3" THEN 3 ELSE 0
+SNames   == Files \cup OutCmds         \* names that can denote a stream of their own
+NameSeq  == <<"f1", "f2", "f3", "cat", "cat3", "exit3">>
+Status(c) == IF c \in {"cat3", "exit3"} THEN 3 ELSE 0
+Reads(c)  == c \notin NoReadCmds
+WKinds   == {"plain", "bufio3", "bufio16", "bufio4096"}
+OModes   == {"default", "csv", "tsv"}
 OldContent == <<c_o, LF>>              \* content of a file that exists before the run
 
 \* The call sites of the open-file function and of os/exec in package interp that the
@@ -57,17 +86,18 @@ CallSites == {
 Lines(c) == LET parts == SplitLit(c, <<LF>>)
             IN IF parts[Len(parts)] = <<>> THEN SubSeq(parts, 1, Len(parts) - 1) ELSE parts
 
-NoOut == [open |-> FALSE, kind |-> "none", buf |-> <<>>, pid |-> 0, mode |-> "none"]
+NoOut == [open |-> FALSE, kind |-> "none", buf |-> <<>>, pid |-> 0, mode |-> "none", broken |-> FALSE]
 NoIn  == [open |-> FALSE, kind |-> "none", lines |-> <<>>, pid |-> 0]
 
 \* cfg = [ne, nw, nr, custom : BOOLEAN, failAt : Int (-1 = the writer never fails),
-\*        buffered : BOOLEAN (standard output writer has a Flush method),
-\*        stdin : sequence of lines, pre : set of files that exist before the run]
+\*        wkind : WKinds (the standard output writer), omode : OModes (the output mode),
+\*        stdin : sequence of lines, pre : set of files that exist before the (first) run]
 InitState(cfg) ==
   [ flags    |-> [ne |-> cfg.ne, nw |-> cfg.nw, nr |-> cfg.nr],
     custom   |-> cfg.custom,
     failAt   |-> cfg.failAt,
-    buffered |-> cfg.buffered,
+    buffered |-> cfg.wkind # "plain",
+    omode    |-> cfg.omode,
     outs     |-> [n \in SNames |-> NoOut],
     ins      |-> [n \in SNames |-> NoIn],
     fsys     |-> [n \in Files |-> IF n \in cfg.pre THEN [ex |-> TRUE, c |-> OldContent] ELSE [ex |-> FALSE, c |-> <<>>]],
@@ -87,9 +117,14 @@ InitState(cfg) ==
     everRead |-> {},         \* ghost: files opened for reading
     denied   |-> FALSE,      \* an attempt was refused by a deny flag
     conflict |-> FALSE,      \* the run used a name in both directions at once (outcome not fixed by the statement)
+    lostWrite |-> FALSE,     \* the run wrote to a command that never reads (whether that is an error is not fixed by the statement)
     mainDone |-> FALSE,      \* the operand has been read (only the normal end can follow)
     step     |-> 0,
     result   |-> "run" ]     \* "run" | "ok" | "exit" | "error"
+
+\* The next Execute on the same Interpreter: everything of the run is fresh, the configuration is the one handed
+\* to this Execute, the file system is what the previous run (which closed all its streams) left behind.
+NextRun(prev, cfg) == [InitState(cfg) EXCEPT !.fsys = prev.fsys, !.fsys0 = prev.fsys]
 
 \* ------------------------------------------------------------ stdout writer
 Deliver(st) ==
@@ -108,7 +143,10 @@ FlushOut(st, n) ==
   IN IF ~o.open THEN st
      ELSE IF o.kind = "file"
           THEN [st EXCEPT !.fsys[n].c = @ \o o.buf, !.outs[n].buf = <<>>]
-          ELSE [st EXCEPT !.procs[o.pid].fed = @ \o o.buf, !.outs[n].buf = <<>>]
+          ELSE IF Reads(n)
+          THEN [st EXCEPT !.procs[o.pid].fed = @ \o o.buf, !.outs[n].buf = <<>>]
+          \* the command has closed its standard input: the bytes are discarded (the stream is broken from then on)
+          ELSE [st EXCEPT !.outs[n].buf = <<>>, !.outs[n].broken = @ \/ o.buf # <<>>]
 
 RECURSIVE FlushFrom(_, _)
 FlushFrom(st, k) == IF k > Len(NameSeq) THEN st ELSE FlushFrom(FlushOut(st, NameSeq[k]), k + 1)
@@ -142,11 +180,17 @@ Conflict(st) == End([st EXCEPT !.conflict = TRUE], "error")
 
 Note(st, k, v, s, j) == [st EXCEPT !.notes = Append(@, [k |-> k, v |-> v, s |-> s, j |-> j])]
 
+\* sysout: what a system() child itself writes to the shared standard output (showf1: the file as it is now)
 StartProc(st, c, kind) ==
   [st EXCEPT !.procs = Append(@, [cmd |-> c, kind |-> kind, lo |-> Len(st.swritten), hi |-> 0 - 1,
-                                  written |-> <<>>, fed |-> <<>>, status |-> Status(c), done |-> FALSE])]
+                                  written |-> <<>>, fed |-> <<>>, status |-> Status(c), done |-> FALSE,
+                                  sysout |-> IF kind = "sys" /\ c \in FileCmds /\ st.fsys["f1"].ex THEN st.fsys["f1"].c ELSE <<>>])]
 
-Payload(st, act) == IF act.form = "printf" THEN <<96 + st.step>> ELSE <<96 + st.step, LF>>
+FieldSep(st) == CASE st.omode = "csv" -> COMMA [] st.omode = "tsv" -> TAB [] OTHER -> SP
+Payload(st, act) ==
+  CASE act.form = "printf" -> <<96 + st.step>>
+    [] act.form = "print2" -> <<96 + st.step, FieldSep(st), 96 + st.step, LF>>
+    [] OTHER               -> <<96 + st.step, LF>>
 
 \* ------------------------------------------------------------------ print
 PrintFile(st, act, data) ==
@@ -161,7 +205,7 @@ PrintFile(st, act, data) ==
   ELSE LET base == IF act.mode = "trunc" \/ ~st.fsys[n].ex THEN <<>> ELSE st.fsys[n].c
            s1   == Deliver(st)
        IN [s1 EXCEPT !.fsys[n]  = [ex |-> TRUE, c |-> base],
-                     !.outs[n]  = [open |-> TRUE, kind |-> "file", buf |-> data, pid |-> 0, mode |-> act.mode],
+                     !.outs[n]  = [open |-> TRUE, kind |-> "file", buf |-> data, pid |-> 0, mode |-> act.mode, broken |-> FALSE],
                      !.opens    = Append(@, [name |-> n, mode |-> act.mode]),
                      !.wr[n]    = [used |-> TRUE, base |-> base, data |-> data]]
 
@@ -173,8 +217,10 @@ PrintCmd(st, act, data) ==
   ELSE IF st.flags.ne THEN Deny(st)
   ELSE LET s1 == StartProc(Deliver(st), c, "out")
            pid == Len(s1.procs)
-       IN [s1 EXCEPT !.outs[c] = [open |-> TRUE, kind |-> "cmd", buf |-> data, pid |-> pid, mode |-> "pipe"],
-                     !.procs[pid].written = data]
+       IN [s1 EXCEPT !.outs[c] = [open |-> TRUE, kind |-> "cmd", buf |-> data, pid |-> pid, mode |-> "pipe", broken |-> FALSE],
+                     !.procs[pid].written = data,
+                     \* a command that does not read: the interpreter may print a diagnostic when a flush fails
+                     !.noise = @ \/ ~Reads(c), !.lostWrite = @ \/ ~Reads(c)]
 
 PrintTo(st, act) ==
   LET data == Payload(st, act) IN
@@ -204,7 +250,8 @@ System(st, act) ==
   ELSE LET s1  == StartProc(Deliver(FlushAllOuts(st)), act.name, "sys")
            pid == Len(s1.procs)
            s2  == ProcDone(s1, pid)
-       IN Note([s2 EXCEPT !.taint = @ \/ st.stdin # <<>>, !.stdin = <<>>], "system", Status(act.name), <<>>, FALSE)
+           rc  == IF act.name \in FileCmds THEN (IF s1.fsys["f1"].ex THEN 0 ELSE 1) ELSE Status(act.name)
+       IN Note([s2 EXCEPT !.taint = @ \/ st.stdin # <<>>, !.stdin = <<>>], "system", rc, <<>>, FALSE)
 
 \* ------------------------------------------------------------------ getline
 ReadIn(st, n, judged) ==
@@ -266,9 +313,11 @@ Apply(st, act) == Apply0([st EXCEPT !.step = @ + 1], act)
 \*  - output to "-", /dev/stdout, /dev/stderr while NoFileWrites is set (the statement only says that
 \*    no FILE may be created, truncated or appended to);
 \*  - a file operand that does not exist or is being written at that moment;
-\*  - anything after the operand except the normal end (operands are read after BEGIN).
+\*  - anything after the operand except the normal end (operands are read after BEGIN);
+\*  - another print to a command that does not read after a flush of that stream has lost bytes.
 Enabled(st, act) ==
   /\ st.result = "run"
+  /\ (act.op = "print" /\ act.dest = "cmd" /\ act.name \in NoReadCmds) => ~st.outs[act.name].broken
   /\ (act.op = "print" /\ act.dest = "file" /\ act.name \in StdNames) => ~st.flags.nw
   /\ act.op = "operand" => (IF act.name = "-" THEN TRUE ELSE st.fsys[act.name].ex /\ ~st.outs[act.name].open)
   /\ st.mainDone => act.op = "finish"
@@ -287,6 +336,13 @@ Menu(fs, classes, forms) ==
   \cup {[op |-> "getline_file", name |-> n, cls |-> k] : n \in fs \cup {"-"}, k \in classes}
   \cup {[op |-> "getline_cmd", name |-> c, cls |-> k] : c \in Cmds, k \in classes}
   \cup {[op |-> "operand", name |-> n, cls |-> "lit"] : n \in fs \cup {"-"}}
+\* the C13 additions: a command that never reads, a system() child that shows a file, print with two arguments
+ExtraMenu(classes) ==
+       {[op |-> "print", dest |-> "cmd", name |-> c, mode |-> "pipe", form |-> "print", cls |-> k] : c \in NoReadCmds, k \in classes}
+  \cup {[op |-> "close", name |-> c, cls |-> k] : c \in NoReadCmds, k \in classes}
+  \cup {[op |-> "fflush", name |-> c, cls |-> "lit"] : c \in NoReadCmds}
+  \cup {[op |-> "system", name |-> c, cls |-> k] : c \in FileCmds, k \in classes}
+  \cup {[op |-> "print", dest |-> "stdout", name |-> "", mode |-> "none", form |-> "print2", cls |-> "lit"]}
 Endings == {[op |-> "finish"], [op |-> "exit"], [op |-> "rterror"]}
 IsIO(act) == act.op \in {"print", "system", "getline_file", "getline_cmd", "operand"}
 
@@ -294,12 +350,16 @@ IsIO(act) == act.op \in {"print", "system", "getline_file", "getline_cmd", "oper
 \* The final standard output is some interleaving of what the program wrote (P) with the
 \* output of every child that shared it (for `cat`: what it was fed), each stream in its own
 \* order; a child's bytes come after everything the program had written when the child was
-\* started (lo) and before everything the program wrote after it had been waited for (hi).
+\* started (lo) and before everything the program wrote after it had been waited for (hi).  A system() child
+\* is waited for at once (lo = hi): its output lies exactly between what the program wrote before and after
+\* the call.  (cat as a system() child echoes the run's standard input: such runs are tainted and not judged.)
 KidSeq(st) ==
   LET RECURSIVE From(_)
       From(k) == IF k > Len(st.procs) THEN <<>>
                  ELSE IF st.procs[k].kind = "out"
-                      THEN <<[out |-> st.procs[k].fed, lo |-> st.procs[k].lo, hi |-> st.procs[k].hi]>> \o From(k + 1)
+                      THEN <<[out |-> st.procs[k].fed, lo |-> st.procs[k].lo, hi |-> st.procs[k].hi, sys |-> FALSE]>> \o From(k + 1)
+                      ELSE IF st.procs[k].kind = "sys" /\ st.procs[k].sysout # <<>>
+                      THEN <<[out |-> st.procs[k].sysout, lo |-> st.procs[k].lo, hi |-> st.procs[k].hi, sys |-> TRUE]>> \o From(k + 1)
                       ELSE From(k + 1)
   IN From(1)
 
@@ -334,7 +394,7 @@ SeqSchedule(pp, kids, pi) ==
 \* What the specification predicts about the observables of a finished run.
 Prediction(st) ==
   [ err         |-> st.result = "error",
-    errJudged   |-> ~st.conflict,
+    errJudged   |-> ~st.conflict /\ ~st.lostWrite,
     opens       |-> st.opens,
     starts      |-> [k \in 1..Len(st.procs) |-> st.procs[k].cmd],
     files       |-> st.fsys,
